@@ -9,7 +9,7 @@ from __future__ import annotations
 import struct
 from typing import Callable, Dict, List, Optional, Tuple
 
-from .expr import C, is_const, is_int_const, is_num_const
+from .expr import C, is_const, is_int_const, is_num_const, rowform
 
 Iv = Tuple[Optional[int], Optional[int]]
 TOP: Iv = (None, None)
@@ -84,7 +84,8 @@ class Intervals:
     def __init__(self, conds: List[tuple], params: Optional[Dict[str, Iv]] = None,
                  cell_range: Optional[Callable[[tuple], Optional[Iv]]] = None,
                  field_range: Optional[Callable[[tuple, str], Optional[Iv]]] = None):
-        self.conds = conds
+        self.conds = conds = [rowform(c) for c in conds]
+        self._rowformed: set = set()
         self.params = params or {}
         self.cell_range = cell_range or (lambda cont: None)
         self.field_range = field_range or (lambda base, name: None)
@@ -106,6 +107,12 @@ class Intervals:
             self._cmp_index.setdefault(c[3], []).append((flip[c[1]], c[2]))
 
     def iv(self, e) -> Iv:
+        if e not in self._rowformed:
+            # positional indexing into a comprehension / zip / enumerate is read as the element it stands for
+            r = rowform(e)
+            self._rowformed.add(r)
+            if r != e:
+                return self.iv(r)
         if e in self._memo:
             return self._memo[e]
         if e in self._busy:
@@ -177,7 +184,10 @@ class Intervals:
             if c is not None:
                 return c
         if k == "newb" and dom[1] == "array" and len(dom[3]) >= 1 and is_const(dom[3][0]):
-            return TYPE_RANGE.get(dom[3][0][1], TOP)
+            tr = TYPE_RANGE.get(dom[3][0][1], TOP)
+            if len(dom[3]) == 2 and dom[3][1][0] in ("lst", "tup") and dom[3][1][1]:
+                return meet(self.elem_iv(dom[3][1]), tr)
+            return tr
         if k == "nary" and dom[1] == "*":
             # array(tc,[0]) * n
             for x in dom[2]:
@@ -276,7 +286,13 @@ class Intervals:
         if k in ("cmp", "and", "or"):
             return (0, 1) if k == "cmp" else TOP
         if k == "phi":
-            return join(self.iv(e[2]), self.iv(e[3]))
+            # conditional expression: each arm is evaluated under its own branch condition
+            from .expr import _norm_node
+            neg = ("un", "not", e[1])
+            neg = _norm_node(neg) or neg
+            a = Intervals(self.conds + [e[1]], self.params, self.cell_range, self.field_range).iv(e[2])
+            b = Intervals(self.conds + [neg], self.params, self.cell_range, self.field_range).iv(e[3])
+            return join(a, b)
         if k == "it":
             return self.elem_iv(e[2])
         if k == "ix":
